@@ -133,7 +133,9 @@ contract(IO + "_fillInBlanks", serves=["C04", "C02"], spec_module="spec.scalars"
                                     maxTime=None if cfg["maxTime"] is None else S.real("maxTime")),
          requires=["0 <= %s" % LO, "%s < %s" % (LO, HI), "%s <= 1e15" % HI],
          # no refinement spec: the postconditions below are the clauses of C02 / C04 themselves
-         loops={"loop#1": {"carried": {"prevEnd": "float(entries[j][1])"}}},
+         # (the closed form speaks about the parameter, not about the local alias `entries`, and the carried name is re-bound
+         # if the local is renamed: pyvc/folds.py)
+         loops={"loop#1": {"carried": {"prevEnd": "float(tier['entries'][j][1])"}}},
          engine_opts={"successor": True, "touch": True, "pair_forward": True, "sorted_forward": True},
          raises={"ParsingError": "len(%s) > 0 and (%s[0][0] < %s or %s[-1][1] > %s)" % (OLDE, OLDE, LO, OLDE, HI)},
          ensures=[("gap-free", "adjacent(tier['entries'], lambda a, b: a[1] == b[0])"),
